@@ -7,6 +7,7 @@ package regexp2
 // state to the harness in /verif. None of this is compiled into a normal build.
 
 import (
+	"sync"
 	"sync/atomic"
 	"time"
 
@@ -199,4 +200,56 @@ func VerifClockState() (current, clockEnd int64, running, started bool, sinceSta
 		sinceStartNs = int64(time.Since(fast.start))
 	}
 	return
+}
+
+// VerifStep is one iteration of the interpreter loop as seen by VerifAttemptTrace: the code position
+// and operator (with its Back/Back2/Rtl/Ci bits) about to be executed, the text position, and the
+// number of used slots of the backtracking stack, the grouping stack and the crawl stack.
+type VerifStep struct {
+	Codepos, Operator, Textpos, TrackUsed, StackUsed, CrawlUsed int
+}
+
+var (
+	verifTraceMu     sync.Mutex
+	verifTraceTarget atomic.Pointer[Runner]
+	verifTraceFn     func(VerifStep) bool
+)
+
+func verifTraceStep(r *Runner) {
+	if verifTraceTarget.Load() != r {
+		return
+	}
+	if verifTraceFn != nil && !verifTraceFn(VerifStep{
+		Codepos: r.codepos, Operator: int(r.operator), Textpos: r.Runtextpos,
+		TrackUsed: len(r.runtrack) - r.Runtrackpos, StackUsed: len(r.runstack) - r.Runstackpos,
+		CrawlUsed: len(r.runcrawl) - r.runcrawlpos,
+	}) {
+		verifTraceFn = nil
+	}
+}
+
+// VerifAttemptTrace is VerifAttemptAtEx that calls step before every iteration of the interpreter
+// loop of this attempt (other runners are not traced; traced attempts are serialised). step returns
+// false to stop being called.
+func VerifAttemptTrace(re *Regexp, rt []rune, pos, textstart int, useQuick bool, step func(VerifStep) bool) (*Match, int, error) {
+	verifTraceMu.Lock()
+	defer verifTraceMu.Unlock()
+	r := re.getRunner()
+	verifTraceFn = step
+	verifTraceTarget.Store(r)
+	defer func() {
+		verifTraceTarget.Store(nil)
+		verifTraceFn = nil
+		re.putRunner(r)
+	}()
+	r.verifSetup(rt, textstart, useQuick)
+	r.Runtextpos = pos
+	if err := executeDefault(r); err != nil {
+		return nil, r.Runtextpos, err
+	}
+	after := r.Runtextpos
+	if r.runmatch.matchcount[0] > 0 {
+		return r.tidyMatch(false), after, nil
+	}
+	return nil, after, nil
 }
